@@ -713,6 +713,11 @@ cdef class HttpParser:
             return EMPTY_FEED_DATA_RESULT
         return messages, False, b""
 
+    @property
+    def has_pending_data(self):
+        """Bytes of a not yet complete message are buffered."""
+        return self._started
+
     def set_upgraded(self, val):
         self._upgraded = val
 
